@@ -4,7 +4,7 @@ CONSTANTS
   Names = {1,2,3}
   Limits = {0,1,2}
   Deadlines = {0,1,2}
-  TrigSets = {{},{1},{2},{3},{1,2},{1,3},{2,3},{1,2,3}}
+  TrigSets = {{},{3},{2,3},{1,2,3}}
   MaxNow = 3
   MaxStores = 3
 CONSTRAINT Bounded
